@@ -126,3 +126,13 @@ Example C07_downscoped_nonvacuous :
   keys (release_tok pm m (Some cl) (PS "userinfo") [] (Some [PS "openid"]) [PS "openid"; PS "email"] [] ui) = [PS "name"]
   /\ keys (release_tok pm m (Some cl) (PS "userinfo") [] None [PS "openid"; PS "email"] [] ui) = [PS "name"; PS "email"].
 Proof. vm_compute. split; reflexivity. Qed.
+
+(* Tie to the source: Gen/Src_claims.v is the CURRENT idpyoidc.server.session.claims.claims_match, translated by
+   harness/py2v.py on every run.  inject_spec is the Python value of a claim specification (None or the dict, in
+   insertion order); spec_ok: an SOther item stands for a key other than "value" / "values" / "essential". *)
+From Verif Require Lib.PyOps Gen.Src_claims Proofs.Src_refine_claims.
+Theorem C07_claims_match_is_source : forall v c clock,
+  Src_refine_claims.spec_ok c = true ->
+  Src_claims.claims_match_src v (Src_refine_claims.inject_spec c) clock = Ok (VBool (claims_match (Some v) c)).
+Proof. exact Src_refine_claims.claims_match_refines. Qed.
+Print Assumptions C07_claims_match_is_source.
